@@ -42,6 +42,8 @@ type ReadCase struct {
 	// Limit+StdWrap-2 (one less, equal, one more) between the source and the
 	// reader under test: a reader type a constructor may recognise.
 	StdWrap int `json:"std_wrap,omitempty"`
+	// Spare (cycled per call): spare capacity behind the Read buffer.
+	Spare []int `json:"spare,omitempty"`
 }
 
 // sizedScripted is a scripted reader that also reports its unread length.
@@ -120,9 +122,32 @@ func checkRead(c ReadCase) error {
 	straddle, faultBeforeLimit, afterLimit := false, false, 0
 	negative := false
 	for i, sz := range c.Sizes {
-		p := make([]byte, sz)
+		// The caller's buffer may be a sub-slice with spare capacity (a scratch
+		// array used in pieces): nothing may be written beyond len(p).
+		spare := 0
+		if len(c.Spare) > 0 {
+			spare = c.Spare[i%len(c.Spare)]
+		}
+		full := make([]byte, sz+spare)
+		for j := sz; j < len(full); j++ {
+			full[j] = 0xEE
+		}
+		p := full[:sz]
 		askedBefore := len(under.asked)
 		n, err := r.Read(p)
+		if n > sz {
+			return fmt.Errorf("call %d: Read returned n=%d for a buffer of length %d (capacity %d)", i, n, sz, sz+spare)
+		}
+		for j := sz; j < len(full); j++ {
+			if full[j] != 0xEE {
+				return fmt.Errorf("call %d: Read wrote beyond len(p)=%d into the spare capacity of the caller's array (offset %d)", i, sz, j)
+			}
+		}
+		for _, a := range under.asked[askedBefore:] {
+			if a > sz {
+				return fmt.Errorf("call %d: the underlying reader was given a %d-byte buffer although the caller's buffer has length %d (capacity %d)", i, a, sz, sz+spare)
+			}
+		}
 		if remaining == 0 {
 			var le *ioutil.LimitError
 			if n != 0 || !errors.As(err, &le) || le.Limit != c.Limit {
@@ -222,6 +247,9 @@ var readProp = vp.Register(vp.Prop[ReadCase]{
 			return Step{N: rapid.IntRange(0, 64).Draw(t, "n"), Err: rapid.SampledFrom([]int{0, 0, 0, 0, 0, 0, 0, 1, 1, 2, 2, 3}).Draw(t, "err")}
 		}), 0, 14).Draw(t, "steps")
 		c := ReadCase{Len: l, Limit: limit, Steps: steps, Sizes: rapid.SliceOfN(rapid.IntRange(0, 64), 1, 20).Draw(t, "sizes")}
+		if rapid.IntRange(0, 2).Draw(t, "spare") == 0 {
+			c.Spare = rapid.SliceOfN(rapid.SampledFrom([]int{0, 1, 7, 64, 512}), 1, 4).Draw(t, "sparecaps")
+		}
 		switch rapid.IntRange(0, 5).Draw(t, "sized") {
 		case 0:
 			c.Sized = true
